@@ -452,12 +452,25 @@ def parseLine(raw, eols=(CRLF, LF, CR ), kind="event line"):
     Consumes parsed portions of raw bytearray
 
     Raise error if eol not found before MAX_LINE_SIZE
+
+    The line ends at the earliest occurrence of any of the eols. When both
+    CR and CRLF are eols, a CR that is the last byte received so far ends the
+    line at once and a LF that arrives next is consumed as part of that eol.
     """
+    skipLf = False  # True when line ended with CR as last byte so far
     while True:
-        for eol in eols:  # loop over eols unless found
-            index = raw.find(eol)  # not found index == -1
-            if index >= 0:
-                break
+        if skipLf and raw:  # LF right after that CR belongs to same eol
+            if raw[0:1] == LF:
+                del raw[0]
+            skipLf = False
+
+        index = -1
+        eol = b''
+        for candidate in eols:  # earliest eol, on tie first in eols
+            i = raw.find(candidate)  # not found i == -1
+            if i >= 0 and (index < 0 or i < index):
+                index = i
+                eol = candidate
 
         if index < 0:  # not found
             if len(raw) > MAX_LINE_SIZE:
@@ -471,6 +484,8 @@ def parseLine(raw, eols=(CRLF, LF, CR ), kind="event line"):
 
         line = raw[:index]
         index += len(eol)  # strip eol
+        if eol == CR and index == len(raw) and CRLF in eols:
+            skipLf = True  # CR may be first half of CRLF split across receives
         del raw[:index] # remove used bytes
         (yield line)
     return
